@@ -120,7 +120,14 @@ def gen_netlist(rnd, big=False):
             if recent and rnd.random() < chainy:
                 return list(rnd.choice(recent))
             return list(rnd.choice(cands))
-        ins = [pick(cls in ('Reg', 'HReg')) for _ in range(nin)]
+        ins = []
+        for _ in range(nin):
+            r_ = pick(cls in ('Reg', 'HReg'))
+            for _retry in range(4):         # distinct wires on the pins of one instance, unless there is no choice
+                if r_ not in ins:
+                    break
+                r_ = pick(cls in ('Reg', 'HReg'))
+            ins.append(r_)
         if cls in ('And2', 'Xor2') and rnd.random() < 0.06:
             ins[1] = list(ins[0])       # the same wire on two pins of one instance
         nodes.append(dict(cls=cls, ins=ins, nout=nout))
